@@ -694,6 +694,10 @@ class Compound(Event, abc.ABC, list[T], typing.Generic[T]):
                     parameter_to_compare_set.add(param)
         except AttributeError:
             return False
+        # A sequence never equals a simultaneity, even if their children do.
+        for kind in (core_events.Consecution, core_events.Concurrence):
+            if isinstance(self, kind) != isinstance(other, kind):
+                return False
         return core_utilities.test_if_objects_are_equal_by_parameter_tuple(
             self, other, tuple(parameter_to_compare_set)
         ) and super().__eq__(other)
